@@ -152,6 +152,43 @@ Theorem C20_dispatch_restores_environment :
 Proof. exact dispatch_seq_restores. Qed.
 Print Assumptions C20_dispatch_restores_environment.
 
+(* The process wrapper DefaultWorker._dispatch reports exactly one result
+   however the payload's process ends (return, raise, sys.exit/os._exit with
+   any code, killed by a signal, time-out), with exit code 0 iff the payload
+   returned, and an exception otherwise -- so that _result_cb runs, and the
+   cores and GPUs are released, for every accepted request. *)
+Theorem C20_process_end_reported_once :
+  forall (e : pend),
+    exists ret exc, proc_results e = [(ret, exc)] /\
+                    (ret = 0 <-> e = PReturn) /\ exc = negb (ret =? 0).
+Proof. exact proc_results_once. Qed.
+Print Assumptions C20_process_end_reported_once.
+
+(* The agent scheduler's raptor forwarding loses and duplicates nothing: for
+   every history of incoming batches, queue registrations / unregistrations
+   and cancel requests, the uids handed to the local scheduler, put on raptor
+   queues, failed ("raptor gone") or canceled, together with the uids waiting
+   in the backlog, are a permutation of the uids that came in. *)
+Theorem C20_scheduler_forwarding_conserves_tasks :
+  forall (ops : list sop) (st : sst),
+    Permutation (evs_uids (snd (srun st ops)) ++ backlog_uids (s_backlog (fst (srun st ops))))
+                (concat (map sop_uids ops) ++ backlog_uids (s_backlog st)).
+Proof. exact srun_conservation. Qed.
+Print Assumptions C20_scheduler_forwarding_conserves_tasks.
+
+(* a task is scheduled by the agent itself iff it names no raptor, is a
+   raptor worker, or was already seen by its raptor (executable tasks coming
+   back from the master); otherwise it is grouped under the raptor it names *)
+Theorem C20_scheduler_routing_decision :
+  forall (u : Z) (rid : option Z) (w seen : bool),
+    classify [(u, rid, w, seen)] =
+    match rid with
+    | Some name => if negb w && negb seen then ([], [(name, [u])]) else ([u], [])
+    | None => ([u], [])
+    end.
+Proof. exact classify_one. Qed.
+Print Assumptions C20_scheduler_routing_decision.
+
 (* non-vacuity: a 3-core x 2-GPU worker; three requests, the third has to wait
    until the first completes (a failure); a fourth request waits for the
    second and then its process start fails; a stale result is rejected; the
